@@ -158,6 +158,140 @@ fn settable_history(seq: &[usize], constant: bool, e: &mut Eng) -> u64 {
     n as u64
 }
 
+
+// ---------------------------------------------------------------- a Terminal as a settable that follows two getters
+#[derive(Clone, Copy, Debug, PartialEq)]
+enum TOp {
+    FollowS,
+    FollowC,
+    StopS,
+    StopC,
+    Update,
+    GS(u8), // state getter now returns 0 = P, 1 = P', 2 = N, 3 = E1
+    GC(u8),
+    SetS,
+    SetC,
+}
+const TOPS: [TOp; 15] = [TOp::FollowS, TOp::FollowC, TOp::StopS, TOp::StopC, TOp::Update, TOp::GS(0), TOp::GS(1), TOp::GS(2), TOp::GS(3), TOp::GC(0), TOp::GC(1), TOp::GC(2), TOp::GC(3), TOp::SetS, TOp::SetC];
+fn tops_show(seq: &[usize]) -> String {
+    seq.iter().map(|&i| format!("{:?}", TOPS[i])).collect::<Vec<_>>().join(",")
+}
+fn gs_out(k: u8) -> Output<Datum<State>, E> {
+    match k {
+        0 => Ok(Some(Datum::new(Time(50), Datum::new(Time(7), State::new_raw(1.0, 2.0, 3.0))))),
+        1 => Ok(Some(Datum::new(Time(51), Datum::new(Time(-9), State::new_raw(-4.0, 0.5, 0.0))))),
+        2 => Ok(None),
+        _ => Err(E1),
+    }
+}
+fn gc_out(k: u8) -> Output<Datum<Command>, E> {
+    match k {
+        0 => Ok(Some(Datum::new(Time(60), Datum::new(Time(8), Command::Velocity(2.5))))),
+        1 => Ok(Some(Datum::new(Time(61), Datum::new(Time(-8), Command::Position(-1.0))))),
+        2 => Ok(None),
+        _ => Err(E2),
+    }
+}
+
+fn terminal_history(seq: &[usize], e: &mut Eng) -> u64 {
+    let n = seq.len();
+    let direct_s = Datum::new(Time(3), State::new_raw(9.0, 9.0, 9.0));
+    let direct_c = Datum::new(Time(4), Command::Acceleration(9.0));
+    let r = guard(|| {
+        let gs = rc(Scr::<Datum<State>>::new(gs_out(0)));
+        let gc = rc(Scr::<Datum<Command>>::new(gc_out(0)));
+        let t = Terminal::<E>::new();
+        let mut trace = Vec::new();
+        for &i in seq {
+            let mut res = 0u32;
+            match TOPS[i] {
+                TOp::FollowS => <Terminal<E> as Settable<Datum<State>, E>>::follow(&mut t.borrow_mut(), dyn_getter(&gs)),
+                TOp::FollowC => <Terminal<E> as Settable<Datum<Command>, E>>::follow(&mut t.borrow_mut(), dyn_getter(&gc)),
+                TOp::StopS => <Terminal<E> as Settable<Datum<State>, E>>::stop_following(&mut t.borrow_mut()),
+                TOp::StopC => <Terminal<E> as Settable<Datum<Command>, E>>::stop_following(&mut t.borrow_mut()),
+                TOp::Update => res = obs_unit(&t.borrow_mut().update()),
+                TOp::GS(k) => gs.borrow_mut().next = gs_out(k),
+                TOp::GC(k) => gc.borrow_mut().next = gc_out(k),
+                TOp::SetS => res = obs_unit(&t.borrow_mut().set(direct_s)),
+                TOp::SetC => res = obs_unit(&t.borrow_mut().set(direct_c)),
+            }
+            let ls = <Terminal<E> as Settable<Datum<State>, E>>::get_last_request(&t.borrow());
+            let lc = <Terminal<E> as Settable<Datum<Command>, E>>::get_last_request(&t.borrow());
+            trace.push((res, ls, lc));
+        }
+        trace
+    });
+    let trace = match r {
+        Ok(t) => t,
+        Err(m) => {
+            e.violation("settable:terminal:panic", n, || format!("ops [{}] panicked: {}", tops_show(seq), m));
+            return n as u64;
+        }
+    };
+    e.outcome(h64(&format!("{:?}", trace)));
+    let (mut fs, mut fc) = (false, false);
+    let (mut ks, mut kc) = (0u8, 0u8);
+    let mut ls: Option<Datum<State>> = None;
+    let mut lc: Option<Datum<Command>> = None;
+    let mut nontrivial = false;
+    for (k, &i) in seq.iter().enumerate() {
+        e.checks += 1;
+        let mut exp_res: Vec<u32> = vec![0];
+        let mut alt: Option<(Option<Datum<State>>, Option<Datum<Command>>)> = None;
+        match TOPS[i] {
+            TOp::FollowS => fs = true,
+            TOp::FollowC => fc = true,
+            TOp::StopS => fs = false,
+            TOp::StopC => fc = false,
+            TOp::GS(x) => ks = x,
+            TOp::GC(x) => kc = x,
+            TOp::SetS => ls = Some(direct_s),
+            TOp::SetC => lc = Some(direct_c),
+            TOp::Update => {
+                let so = if fs { Some(gs_out(ks)) } else { None };
+                let co = if fc { Some(gc_out(kc)) } else { None };
+                let s_err = matches!(so, Some(Err(_)));
+                let c_err = matches!(co, Some(Err(_)));
+                let s_val = match so { Some(Ok(Some(d))) => Some(d.value), _ => None };
+                let c_val = match co { Some(Ok(Some(d))) => Some(d.value), _ => None };
+                if s_val.is_some() || c_val.is_some() {
+                    nontrivial = true;
+                }
+                if !s_err && !c_err {
+                    if let Some(v) = s_val { ls = Some(v); }
+                    if let Some(v) = c_val { lc = Some(v); }
+                } else {
+                    // an erroring followed getter: its error is returned; whether the *other* followed
+                    // value was already forwarded depends on an order the property does not fix
+                    exp_res = vec![];
+                    if s_err { exp_res.push(2 + 1); }
+                    if c_err { exp_res.push(2 + 2); }
+                    let before = (ls, lc);
+                    let mut after = before;
+                    if !s_err { if let Some(v) = s_val { after.0 = Some(v); } }
+                    if !c_err { if let Some(v) = c_val { after.1 = Some(v); } }
+                    alt = Some(after);
+                    // keep `before` as the primary expectation; switch the model to whatever was observed
+                    let got = (trace[k].1, trace[k].2);
+                    if got == after { ls = after.0; lc = after.1; }
+                }
+            }
+        }
+        let (res, gls, glc) = trace[k];
+        let ok_state = (gls, glc) == (ls, lc) || alt.map(|a| (gls, glc) == a).unwrap_or(false);
+        if !exp_res.contains(&res) || !ok_state {
+            e.violation(&format!("settable:terminal:{}", if !exp_res.contains(&res) { "result" } else { "last-request" }), k + 1, || {
+                format!("ops [{}]: after op {} result {} last state request {:?} last command request {:?}; model: result in {:?}, state {:?}, command {:?}", tops_show(&seq[..=k]), k, res, gls, glc, exp_res, ls, lc)
+            });
+            break;
+        }
+    }
+    if nontrivial {
+        e.nontrivial += 1;
+    }
+    n as u64
+}
+
 // ---------------------------------------------------------------- history adapter
 /// History that answers only for non-negative times, returns the queried time as the value
 /// and stamps its datum with a *different* time (rounded down to a multiple of 4), as a
@@ -398,6 +532,17 @@ pub fn run(ctx: &Ctx) -> Vec<Eng> {
             a
         });
     }
+    let tdepth = if ctx.thorough { 6 } else { 5 };
+    let mut e1b = Eng::new(
+        "c15-terminal-following",
+        "a Terminal (which is a settable for states and for commands) following a state getter and a command getter: all sequences of exactly `depth` ops over {follow/stop for each, update, each getter := P/P'/N/E, direct set of a state / a command}; model: each update forwards exactly the present followed values into the matching last-request slot, nothing when absent or after stop_following, returns a followed getter's error (which of two followed values is forwarded before an error is returned is not constrained); non-trivial = an update forwarded a value",
+        &format!("depth {} => 15^{} sequences", tdepth, tdepth),
+    );
+    par_seqs(&mut e1b, TOPS.len(), tdepth, budget, |seq, e| {
+        let a = terminal_history(seq, e);
+        e.sample(|| tops_show(seq));
+        a
+    });
     let hdepth = if ctx.thorough { 7 } else { 6 };
     let mut e2 = Eng::new(
         "c15-history-adapter",
@@ -421,5 +566,5 @@ pub fn run(ctx: &Ctx) -> Vec<Eng> {
         "20 cases",
     );
     time_getters(&mut e3);
-    vec![e1, e2, e3]
+    vec![e1, e1b, e2, e3]
 }
